@@ -625,8 +625,21 @@ func foldRef[T any](xs []T, m fp.Monoid[T]) T {
 	return acc
 }
 
+// xsOf draws the input sequence: short most of the time, but the code imposes no bound on the length, so
+// a quarter of the cases are longer (9..40) or long (41..300).
+func xsOf[T any](rt *rapid.T, gen *rapid.Generator[T]) []T {
+	lo, hi := 0, 8
+	switch rapid.IntRange(0, 11).Draw(rt, "sizeClass") {
+	case 0, 1:
+		lo, hi = 9, 40
+	case 2:
+		lo, hi = 41, 300
+	}
+	return rapid.SliceOfN(gen, lo, hi).Draw(rt, "xs")
+}
+
 func reduceChecks[T any](t *testing.T, mname string, m fp.Monoid[T], refCombine func(a, b T) T, refEmpty func() T, gen *rapid.Generator[T], eq func(a, b T) bool, show func(T) string) {
-	rule := "input sequence xs (len 0..8) of " + mname + " values; oracle: left fold of an independently written Combine from Empty; non-trivial iff len(xs) >= 2; distinct by printed xs"
+	rule := "input sequence xs (len 0..8, in a quarter of the cases 9..40 or 41..300: nothing in the code bounds the length) of " + mname + " values; oracle: left fold of an independently written Combine from Empty; non-trivial iff len(xs) >= 2; distinct by printed xs"
 	ref := func(xs []T) T {
 		acc := refEmpty()
 		for _, x := range xs {
@@ -642,7 +655,7 @@ func reduceChecks[T any](t *testing.T, mname string, m fp.Monoid[T], refCombine 
 		return s + "]"
 	}
 	kit.Check(t, "seq.Reduce/"+mname, rule, kit.Opt{}, func(rt *rapid.T, rec *kit.Rec) {
-		xs := rapid.SliceOfN(gen, 0, 8).Draw(rt, "xs")
+		xs := xsOf(rt, gen)
 		rec.Case(len(xs) >= 2, showS(xs))
 		var got T
 		rec.Guard(rt, "C11|seq.Reduce|"+mname, func() { got = seq.Reduce(xs, m) })
@@ -651,7 +664,7 @@ func reduceChecks[T any](t *testing.T, mname string, m fp.Monoid[T], refCombine 
 		}
 	})
 	kit.Check(t, "iterator.Reduce/"+mname, rule+"; iterator kind drawn", kit.Opt{}, func(rt *rapid.T, rec *kit.Rec) {
-		xs := rapid.SliceOfN(gen, 0, 8).Draw(rt, "xs")
+		xs := xsOf(rt, gen)
 		kind := rapid.IntRange(0, 2).Draw(rt, "kind")
 		rec.Case(len(xs) >= 2, fmt.Sprintf("k%d%s", kind, showS(xs)))
 		var got T
@@ -661,7 +674,7 @@ func reduceChecks[T any](t *testing.T, mname string, m fp.Monoid[T], refCombine 
 		}
 	})
 	kit.Check(t, "list.Reduce/"+mname, rule+"; list kind drawn (slice, cons, lazy, collected)", kit.Opt{}, func(rt *rapid.T, rec *kit.Rec) {
-		xs := rapid.SliceOfN(gen, 0, 8).Draw(rt, "xs")
+		xs := xsOf(rt, gen)
 		kind := rapid.IntRange(0, 3).Draw(rt, "kind")
 		rec.Case(len(xs) >= 2, fmt.Sprintf("k%d%s", kind, showS(xs)))
 		var got T
@@ -671,7 +684,7 @@ func reduceChecks[T any](t *testing.T, mname string, m fp.Monoid[T], refCombine 
 		}
 	})
 	kit.Check(t, "agree/"+mname, rule+"; seq/iterator/list Reduce and FoldMap(id) compared with one another", kit.Opt{}, func(rt *rapid.T, rec *kit.Rec) {
-		xs := rapid.SliceOfN(gen, 0, 8).Draw(rt, "xs")
+		xs := xsOf(rt, gen)
 		rec.Case(len(xs) >= 2, showS(xs))
 		var a, b, c, d, e T
 		rec.Guard(rt, "C11|agree|"+mname, func() {
@@ -762,9 +775,9 @@ func TestReduce(t *testing.T) {
 		})
 
 	// FoldMap with a mapping function
-	rule := "xs ints (len 0..8), table function f: int -> string / Seq; oracle: left fold of Combine(acc, f(x)) from Empty; non-trivial iff len(xs) >= 2"
+	rule := "xs ints (len 0..8, in a quarter of the cases 9..40 or 41..300), table function f: int -> string / Seq; oracle: left fold of Combine(acc, f(x)) from Empty; non-trivial iff len(xs) >= 2"
 	kit.Check(t, "seq.FoldMap/String", rule, kit.Opt{}, func(rt *rapid.T, rec *kit.Rec) {
-		xs := kit.IntSlice(8).Draw(rt, "xs")
+		xs := kit.IntSliceWide(8).Draw(rt, "xs")
 		f := kit.IntFnGen().Draw(rt, "f")
 		fs := func(x int) string { return strconv.Itoa(f.Call(x)) + "," }
 		rec.Case(len(xs) >= 2, fmt.Sprintf("%v %v", xs, f))
@@ -779,7 +792,7 @@ func TestReduce(t *testing.T) {
 		}
 	})
 	kit.Check(t, "list.FoldMap/String", rule+"; list kind drawn", kit.Opt{}, func(rt *rapid.T, rec *kit.Rec) {
-		xs := kit.IntSlice(8).Draw(rt, "xs")
+		xs := kit.IntSliceWide(8).Draw(rt, "xs")
 		f := kit.IntFnGen().Draw(rt, "f")
 		kind := rapid.IntRange(0, 3).Draw(rt, "kind")
 		fs := func(x int) string { return strconv.Itoa(f.Call(x)) + "," }
@@ -795,7 +808,7 @@ func TestReduce(t *testing.T) {
 		}
 	})
 	kit.Check(t, "list.FoldMap/Dual(Endo)", rule+"; FoldLeftUsingMap/FoldRightUsingMap/FoldLeft against plain folds with a non-commutative step", kit.Opt{}, func(rt *rapid.T, rec *kit.Rec) {
-		xs := kit.IntSlice(8).Draw(rt, "xs")
+		xs := kit.IntSliceWide(8).Draw(rt, "xs")
 		kind := rapid.IntRange(0, 3).Draw(rt, "kind")
 		rec.Case(len(xs) >= 2, fmt.Sprintf("k%d %v", kind, xs))
 		step := func(acc string, x int) string { return "(" + acc + strconv.Itoa(x) + ")" }
